@@ -178,6 +178,16 @@ def run(ctx):
                "bounded chunk encoder is looped / the remainder is checked" if ok else
                f"{bounded[0][1].name} emits at most one size-limited chunk and the rest of the datagram is silently dropped (truncation of datagrams larger than the chunk limit)")
 
+    # ---------------- U6 per-datagram target is not replaced from a partially keyed cache -----------------------
+    from .common import partial_key_caches
+    for (b, blk, t, mty, why, kind) in partial_key_caches(prog):
+        if kind != "udp":
+            continue
+        ctx.ob("U6", b.defp, "address-cache-keyed-by-whole-address", loc(t["sp"]), False,
+               f"lookup in {mty[:80]}: {why}: a datagram for the same host on another port is sent to the port of an earlier datagram, and its "
+               "answer comes back labelled with the wrong address")
+    ctx.note("U6: %d lookups in address-valued maps keyed by part of the address" % len([1 for x in partial_key_caches(prog) if x[5] == "udp"]))
+
 
 def _copy_root(b, local, depth=0):
     """follow plain copies/moves back to the first projection: returns the place (base, proj) the value was bound from"""
